@@ -146,7 +146,7 @@ var stakeSets = [][]int64{
 
 func cases(tier string, seed int64) []fw.Case {
 	r := rand.New(rand.NewSource(seed*7919 + 17))
-	nCases, perCase := 24, 10
+	nCases, perCase := 64, 10
 	if tier == "thorough" {
 		nCases, perCase = 320, 12
 	}
